@@ -110,6 +110,33 @@ pub fn inputs_of_base(plan: &Plan, b: u64, corpus: &[(String, Vec<u8>)]) -> Vec<
     let mut out: Vec<Input> = Vec::new();
     // the untouched base itself
     out.push(Input { operator: "wellformed".into(), label: format!("{}: unmodified", base.name), bytes: base.bytes.clone() });
+    if plan.mode == Mode::Digest && b < plan.generated_bases {
+        // cross-profile comparison: well-formed sprites whose sizes / counts exceed 255 and 65535
+        // (arithmetic that only wraps for large but valid values)
+        for k in 0..24u64 {
+            let mut r = Rng::derive(plan.seed, "digest-big", b * 64 + k);
+            let mut cfg = crate::gen::GenCfg::small();
+            cfg.max_w = 24;
+            cfg.max_h = 24;
+            cfg.max_layers = 4;
+            cfg.max_frames = 3;
+            cfg.attrs = false;
+            cfg.extremes = false;
+            cfg.big = true;
+            cfg.extreme_cels = true;
+            cfg.aligned_tilemaps = k % 2 == 0;
+            let (mut sp, pp) = crate::gen::gen_sprite(&mut r, &cfg);
+            // keep the canvas small so that the digest includes all images
+            if sp.width as u32 * sp.height as u32 > 4096 {
+                sp.width = sp.width.min(64);
+                sp.height = sp.height.min(64);
+            }
+            let mut v = crate::program::Variation::none();
+            v.storage = true;
+            let bytes = crate::encode::encode(&crate::program::compile_with(&sp, &mut r, &v, &pp)).0;
+            out.push(Input { operator: "wellformed:big".into(), label: format!("{}: well-formed sprite #{} with large dimensions", base.name, k), bytes });
+        }
+    }
     match plan.mode {
         Mode::Mem => {
             // every size / count / index field inflated one at a time to each larger boundary value
